@@ -69,7 +69,7 @@ def _child(d, spec):
             if v is None:
                 os.environ.pop(k, None)
             else:
-                os.environ[k] = v
+                os.environ[k] = v.replace('{SCRATCH}', d)
         so = os.open(os.path.join(d, '.stdout'), os.O_WRONLY | os.O_CREAT | os.O_TRUNC, 0o600)
         se = os.open(os.path.join(d, '.stderr'), os.O_WRONLY | os.O_CREAT | os.O_TRUNC, 0o600)
         dn = os.open(os.devnull, os.O_RDONLY)
